@@ -352,7 +352,24 @@ def check(ctx, form, sig, sample=False, fmt="dict", spacers=0):
                     "observed": f"{len(exp)} (element, kind) entries matched"})
 
 
+def loop_text_forms(ctx):
+    """Looped questions (begin loop over <list>): every copy shows its own choice's label, per language, hostile characters intact."""
+    from .. import looptext
+    rng = ctx.rng("looptext")
+    frags = ["<b>", "&amp;", "]]>", "a < b", '"q"', "\u00e9\u05d0", "&", "</label>", "{x}", "#"]
+    for k, (sheets, exp, sig) in enumerate(looptext.cases(rng, lambda: rng.choice(frags))):
+        if not ctx.mine(k):
+            continue
+        o, viols = looptext.judge(sheets, exp)
+        ctx.ctr("loop_text_forms")
+        ctx.ctr("loop_text_cells", len(exp))
+        ctx.case(sig=sig)
+        for key, msg in viols[:4]:
+            ctx.viol(key, msg, {"klass": "loop-text", "sheets_md": common.sheets_to_md(sheets)[:2500], "sheets": {n: [list(h), r] for n, (h, r) in sheets.items()}})
+
+
 def run_shard(ctx):
+    loop_text_forms(ctx)
     pl = plan(ctx.tier, ctx.seed)
     for i in range(pl["n"]):
         if not ctx.mine(i):
@@ -371,5 +388,8 @@ def run_shard(ctx):
 
 def replay(w):
     def chk(ctx, wit):
+        if wit.get("klass") == "loop-text":
+            loop_text_forms(ctx)  # the family is small and deterministic: run it whole
+            return
         check(ctx, common.form_from_witness(wit), "replay")
     return common.replay_with(PROP, w, chk)
